@@ -266,6 +266,16 @@ class World:
     def s_apply_quant(self):
         sym = self.rng.choice(QUANT_SYMS)
         a, b = self.pick(), self.pick()
+        if self.rng.random() < 0.7:
+            # the first operand only supplies its support: usually a
+            # function of 1-2 variables, so the result is not constant
+            vs = self._subset(1)[:2]
+            t = self.sp.cube_table({v: self.rng.random() < 0.5 for v in vs})
+            if self.reordering:
+                self.accept('ite', self.build_public(t), t, strict=True)
+            else:
+                self.accept('find_or_add', self.build(t), t, strict=True)
+            a = self.pool[-1]
         h = self.bdd.apply(sym, a.h, b.h)
         q = self.sp.support(a.tt)
         want = (self.sp.forall if QUANT_OPS[sym] else self.sp.exists)(b.tt, q)
@@ -441,6 +451,53 @@ class World:
             return ('fop', 'compare')
         self.accept('Function.' + name, h, want)
         return ('fop', name)
+
+    def s_clone(self):
+        """`copy.copy(manager)`: the duplicate and the original must
+        be independent. Operations in the duplicate (judged there),
+        then the history goes on in the original."""
+        if self.kind != 'bdd':
+            return ('clone-skip',)
+        import copy
+        c = copy.copy(self.raw)
+        inherited = dict(self.ext)
+        sp = self.sp
+        den = Denoter(c, sp)
+        for e in self.pool:
+            if den(e.h) != e.tt:
+                raise Violation('__copy__', 'duplicate-denotes-other-function',
+                                e.h)
+        for _ in range(self.rng.randint(1, 4)):
+            a, b = self.pick(), self.pick()
+            sym = self.rng.choice(BIN_SYMS)
+            r = c.apply(sym, a.h, b.h)
+            want = getattr(sp, BINOPS[sym])(a.tt, b.tt)
+            if Denoter(c, sp)(r) != want:
+                raise Violation('__copy__', 'wrong-result-in-duplicate',
+                                (sym, a.h, b.h))
+            # the same connective in the original, right afterwards
+            r0 = self.raw.apply(sym, a.h, b.h)
+            self.accept('apply-after-copy', r0, want, strict=True)
+        monitors.check_structure(c)
+        # release what the duplicate inherited, so that it shuts down
+        for u, k in inherited.items():
+            for _ in range(k):
+                c.decref(u)
+        self.ctx.count('clones')
+        return ('clone',)
+
+    def s_rearm(self):
+        """Dynamic reordering: release most references, collect, and
+        enable reordering again, so that the growth threshold is low
+        again (it doubles after every reordering)."""
+        if not self.reordering:
+            return ('rearm-skip',)
+        while len(self.pool) > 3:
+            self.drop(self.rng.randrange(len(self.pool)))
+        self.bdd.collect_garbage()
+        self.bdd.configure(reordering=True)
+        self.ctx.count('rearm_calls')
+        return ('rearm', len(self.raw))
 
     def s_drop(self):
         if len(self.pool) > 1:
@@ -798,7 +855,7 @@ class World:
         **{'not': 2}, let_const=3, let_rename=3, let_compose=3, cube=1, var=1,
         add_expr=3, to_expr=1, dup=2, drop=6, drop_many=1, gc=4,
         gc_rooted=1, swap=3, sift=1, reorder_to=1, pairs=1, declare=0,
-        undeclare=0, copy_roundtrip=1, dump_load=0, traverse=0, canon=0, fop=0)
+        undeclare=0, copy_roundtrip=1, dump_load=0, traverse=0, canon=0, fop=0, rearm=0, clone=0)
 
     def step(self, menu):
         """Execute one random step from `menu` (name -> weight) and run
